@@ -16,7 +16,7 @@ PROPS = {
         explanation='decoder total (never panic), complete for RFC framing, sound, named rejection classes; oracle = independent three-valued reference parser',
     ),
     'C04': dict(
-        lean='CoapLite.Props.C04', domains=['PKT'], line_filter=r'PKT (enc|trace|apitrace) ', rule=PKT_RULE,
+        lean='CoapLite.Props.C04', domains=['PKT', 'TBL'], line_filter=r'(PKT (enc|trace|apitrace) |TBL hdrser )', rule=PKT_RULE,
         explanation='exact wire length, limit iff, refusal of over-long option values',
     ),
     'C06': dict(
@@ -63,7 +63,7 @@ PROPS = {
         explanation='negotiated size bounds and wire-length-within-budget proved; blockOptionsMaxLength regenerated from source',
     ),
     'C11': dict(
-        lean='CoapLite.Props.C11', domains=['BLK'], rule='Sessions against the real BlockHandler under the deterministic fake clock, full comparison of every outcome, reply dump, request payload and (hook) cached state: Block2 downloads of every body length 0..3*blocksize+1 for sizes 16/32/64 x client preference none/equal/larger, lengths {0,15,16,17,1023,1024,1025,5000(20000)} x budgets 38..1280 x preferences incl. mid-transfer reduction, budgets in a band of +-3 around overhead+{12,28,32,44}+2^j for 4 request shapes x 3 reply option sets; Block1 uploads at every size exponent x lengths around block multiples x duplicate patterns x abandoned prefixes; too-large requests; 8000 (60000) hostile request sequences of length 1..6 (option bloat to 1400 B, block numbers up to 65535, szx 0..7, malformed block bytes, all message types, budgets 0..5000, large replies, pre-set Block2); all interleavings of 2 transfers x 4 exchanges differing in one key component; cache lifetime at ttl-1/ttl/ttl+1/4*ttl with 0..25 (2000) intervening keys; keep-alive chains (duplicates / earlier blocks spaced just under the expiry); far jumps with announced Size1/Size2; finished transfers resumed at a later block with a grown reply; application response codes 2.01..5.03 in interleavings. Every session is non-trivial; distinct = distinct session lines.',
+        lean='CoapLite.Props.C11', domains=['BLK', 'TBL'], line_filter=r'(BLK |TBL errctor )', rule='Sessions against the real BlockHandler under the deterministic fake clock, full comparison of every outcome, reply dump, request payload and (hook) cached state: Block2 downloads of every body length 0..3*blocksize+1 for sizes 16/32/64 x client preference none/equal/larger, lengths {0,15,16,17,1023,1024,1025,5000(20000)} x budgets 38..1280 x preferences incl. mid-transfer reduction, budgets in a band of +-3 around overhead+{12,28,32,44}+2^j for 4 request shapes x 3 reply option sets; Block1 uploads at every size exponent x lengths around block multiples x duplicate patterns x abandoned prefixes; too-large requests; 8000 (60000) hostile request sequences of length 1..6 (option bloat to 1400 B, block numbers up to 65535, szx 0..7, malformed block bytes, all message types, budgets 0..5000, large replies, pre-set Block2); all interleavings of 2 transfers x 4 exchanges differing in one key component; cache lifetime at ttl-1/ttl/ttl+1/4*ttl with 0..25 (2000) intervening keys; keep-alive chains (duplicates / earlier blocks spaced just under the expiry); far jumps with announced Size1/Size2; finished transfers resumed at a later block with a grown reply; application response codes 2.01..5.03 in interleavings. Every session is non-trivial; distinct = distinct session lines.',
         explanation='never-panic, renderable errors, buffer growth bound for all requests/states/budgets',
     ),
     'C12': dict(
